@@ -1,0 +1,32 @@
+//go:build verif
+
+package base
+
+import (
+	"sync"
+
+	"github.com/relex/slog-agent/util"
+)
+
+// Read-only peeks for the verification harness (/verif, property C12). Nothing here is compiled without -tags verif.
+
+// VerifRecordRefCount returns the current reference count of a record
+func VerifRecordRefCount(record *LogRecord) int {
+	return record._refCount
+}
+
+// VerifRecordBackbuf returns the pooled backing buffer attached to a record, or nil
+func VerifRecordBackbuf(record *LogRecord) *[]byte {
+	return record._backbuf
+}
+
+// VerifAllocatorPools returns the pool of record structs and the pools of backing buffers of an allocator,
+// so that the harness can observe which pool an object is taken from and how many objects are newly created
+func VerifAllocatorPools(alloc *LogAllocator) (*sync.Pool, util.BytesPoolBy2n) {
+	return alloc.recordPool, alloc.backbufPools
+}
+
+// VerifAllocatorInitialRefCount returns the reference count given to new records (the number of outputs)
+func VerifAllocatorInitialRefCount(alloc *LogAllocator) int {
+	return alloc.initialRefCount
+}
